@@ -35,6 +35,11 @@ def run_table(tier, seed):
         for pen in G.R.PENALTIES:
             out.append({"t": "run", "spec": spec, "cfg": {"penalty": pen, "iteration_limit": 80, "params": {"rho": 1e-17}}, "sc": None})
             out.append({"t": "run", "spec": spec, "cfg": {"penalty": pen, "iteration_limit": 80, "params": {"rho": 1e-8, "precision": "Single"}}, "sc": None})
+    for spec in G.exact_feasibility_specs():
+        for pen in G.R.PENALTIES:
+            for rho0 in (1e-8, 1e-3):
+                for ctl in ("DistanceRatio", "Fixed"):
+                    out.append({"t": "run", "spec": spec, "cfg": {"penalty": pen, "control": ctl, "iteration_limit": 80, "params": {"rho": rho0}}, "sc": None})
     # norm-type family: several near-equal multipliers x a fine logarithmic grid of rho0 (8 values per decade)
     grid = [10.0 ** (e / 8.0) for e in range(-32, 1)] if tier == "thorough" else [10.0 ** (e / 8.0) for e in range(-24, -7)]
     for spec in G.multi_multiplier_specs():
